@@ -83,6 +83,8 @@ func c29(p *core.Program, r *core.Report) {
 	c29HandOut(p, r)
 	r.Rule("R4", "create-if-absent is atomic: every insertion into a guarded registry map (Field.viewMap, Index.fields, Holder.indexes, view.fragments) outside setup functions follows, on every path, a lookup in that map made since the write lock was last taken in that function; a lock-required helper that inserts without looking must be called only where such a lookup was made")
 	c29CreateIfAbsent(p, r)
+	r.Rule("R5", "the bit depth only grows: in every Field method that assigns the bit depth outside setup, the assignment happens with Field.mu held and after a condition that mentions the current bit depth was evaluated under that hold")
+	c29DepthOnlyGrows(p, r)
 	// callers of the mutex vectors' Get must be fragment methods (which hold or require f.mu)
 	pk := p.Pkg("")
 	if pk != nil {
